@@ -90,7 +90,7 @@ def whole_messages(ctx, n_cases, n_values):
             try:
                 comp = sut_compiler.compile_schema(root, d, ["c"], rng=rng)
             except Exception as e:
-                res.count("skipped_compile_error")
+                harness.compile_failed(res, e, wit)
                 continue
             wit["schema"] = pycommon.describe(root, comp["paths"])
             dg = sut_c.DriverGen(root)
@@ -143,8 +143,8 @@ def access_width(ctx, n_cases):
                 for endian in ("big", "both", "little"):
                     dirs[endian] = os.path.join(top, "opt-" + endian)
                     sut_compiler.compile_schema(root, top, ["c"], outdir=dirs[endian], optimize=True, endian=endian, paths=paths)
-            except Exception:
-                res.count("skipped_compile_error")
+            except Exception as e:
+                harness.compile_failed(res, e, wit)
                 continue
             wit["schema"] = pycommon.describe(root, paths)
             dg = sut_c.DriverGen(root)
